@@ -139,7 +139,7 @@ func (s *Solver) Close() {
 // restart kills the process and replays the assertion stack.
 // Restart replaces the solver process (only at assertion depth 0).
 func (s *Solver) Restart() {
-	if s.Depth() == 0 && s.nq > 300 {
+	if s.Depth() == 0 && s.nq > 0 {
 		s.restart()
 		s.Stats.Restarts--
 	}
